@@ -2965,7 +2965,10 @@ bounded_affine_image(const Variable var,
                              LESS_OR_EQUAL,
                              ub_expr,
                              denominator);
-    if (denominator > 0) {
+    if (marked_empty()) {
+      // The image turned out to be empty: nothing to refine.
+    }
+    else if (denominator > 0) {
       refine_no_check(lb_expr <= denominator*var);
     }
     else {
@@ -2978,7 +2981,10 @@ bounded_affine_image(const Variable var,
                              GREATER_OR_EQUAL,
                              lb_expr,
                              denominator);
-    if (denominator > 0) {
+    if (marked_empty()) {
+      // The image turned out to be empty: nothing to refine.
+    }
+    else if (denominator > 0) {
       refine_no_check(denominator*var <= ub_expr);
     }
     else {
@@ -3278,6 +3284,11 @@ generalized_affine_preimage(const Variable var,
       ? relsym : reversed_relsym;
     generalized_affine_image(var, inverse_relsym, inverse_expr,
                              inverse_denominator);
+    return;
+  }
+
+  // Any preimage of an empty polyhedron is empty.
+  if (marked_empty()) {
     return;
   }
 
